@@ -319,6 +319,30 @@ func rulePOS1(c *Ctx) {
 		}
 		nodes[f] = &node{f: f, entry: f.Lit == nil}
 	}
+	// pass-through helpers: unexported functions that only call a node carry the caller's fact along
+	for changed := true; changed; {
+		changed = false
+		for _, f := range p.FuncsIn("json") {
+			if f.Body() == nil || nodes[f] != nil || f.Decl == nil || f.Obj == nil || ast.IsExported(f.Obj.Name()) || isAfter(f.Obj) {
+				continue
+			}
+			calls := false
+			InspectNoLit(f.Body(), func(nd ast.Node) bool {
+				if call, ok := nd.(*ast.CallExpr); ok {
+					if cf := Callee(f.Info(), call); cf != nil {
+						if hf := p.FuncOf(cf); hf != nil && nodes[hf] != nil && hf.Decl != nil {
+							calls = true
+						}
+					}
+				}
+				return !calls
+			})
+			if calls && len(callersOf(p, f.Obj)) > 0 {
+				nodes[f] = &node{f: f, entry: true}
+				changed = true
+			}
+		}
+	}
 	if !c.Floor("functions that build after-value errors", len(nodes), 10) {
 		return
 	}
